@@ -103,3 +103,9 @@ Theorem C11_prefix_ambiguity_refuted :
   map snd (resolve false [] enums) = [true; true] /\ ~ NoDup (constants (resolve false [] enums)).
 Proof. exact prefix_ambiguity_refuted. Qed.
 Print Assumptions C11_prefix_ambiguity_refuted.
+
+(** What the single sweep does guarantee: any two enums that both keep their plain constant names have no
+    constant name in common. *)
+Theorem C11_unprefixed_enums_are_disjoint : forall always types enums, unprefixed_disjoint (resolve always types enums).
+Proof. exact unprefixed_enums_are_disjoint. Qed.
+Print Assumptions C11_unprefixed_enums_are_disjoint.
